@@ -2,7 +2,7 @@
 # False-alarm test: runs ALL six checks against independently written LEGITIMATE changes kept in /verif/benign/<id>/
 # (patch.diff + demo.rs + README.md + meta.json): changes that alter the implementation but keep the property true.
 # Every check must exit 0 on every one of them. Scratch copies under /tmp only; /repo and /verif are not touched.
-# usage: selftest/seeded.sh [id-pattern]   env: TIER=quick|thorough  ALL=1 (run all six checks, not only the owning one)
+# usage: selftest/benign.sh [id-pattern]   env: TIER=quick|thorough  CHECKS="C06 C12" (run only the owning check plus these instead of all six)
 set -u
 HERE=$(cd "$(dirname "$0")" && pwd); VERIF=$(dirname "$HERE")
 S=/tmp/tasim-benign; PAT="${1:-}"; TIER="${TIER:-quick}"
@@ -26,10 +26,10 @@ for d in "$VERIF"/benign/*${PAT}*/; do
   if (cd "$S/repo" && CARGO_TARGET_DIR="$S/target-repo" cargo test --workspace --no-fail-fast --offline >"$S/test.log" 2>&1); then
     base="pass($(grep -E '^test result: ok' "$S/test.log" | awk '{s+=$4} END{print s}'))"
   else base="FAIL"; fi
-  if ! (cd "$S/sim" && CARGO_TARGET_DIR="$S/target-sim" cargo build --release --offline >"$S/build.log" 2>&1); then
+  if ! (cd "$S/sim" && CARGO_TARGET_DIR="$S/target-sim" cargo build --release --offline >"$S/build.log" 2>&1 && CARGO_TARGET_DIR="$S/target-sim" cargo build --profile shipped --offline >>"$S/build.log" 2>&1); then
     printf "%s\t%s\t%s\t-\tbuild-failed\t0\t-\n" "$id" "$prop" "$base" | tee -a "$OUT"; miss=1; continue
   fi
-  props="C04 C05 C06 C12 C17 C18"
+  props="C04 C05 C06 C12 C17 C18"; [ -n "${CHECKS:-}" ] && props=$(echo "$prop $CHECKS" | tr " " "\n" | sort -u | tr "\n" " ")
   for p in $props; do
     t0=$(date +%s.%N)
     VERIF_DIR="$S/out" CARGO_TARGET_DIR="$S/target-miri" "$S/target-sim/release/tasim" "$p" "$TIER" >"$S/run.log" 2>&1; code=$?
